@@ -86,7 +86,7 @@ META = {
     },
     "C09": {
         "technique": "property-based testing (rapid) over generated log states x four loaders x concurrency x generated block-arrival orders (gated in-memory store + completion-order controller); oracle = set model / reference sort",
-        "text": "Generated histories (forks, skip references, two codecs) are reloaded through each loader under generated fetch concurrency and generated completion orders of the outstanding block reads; the loaded log must equal the model (id, entry set, heads, values). Exploration.",
+        "text": "Generated histories (forks, skip references, two codecs) are reloaded through each loader under generated fetch concurrency and generated completion orders of the outstanding block reads; the loaded log must equal the model (id, entry set, heads, values); also for logs that continue another log's history under their own id, and while a rival load of the same heads gives up in the same process. Exploration.",
         "note": "Completion orders come from a polling controller: every realised order is legal, reproducibility of a schedule-dependent failure relies on the recorded order stored in the replay file.",
     },
     "C10": {
@@ -96,7 +96,7 @@ META = {
     },
     "C11": {
         "technique": "property-based testing (rapid) with fault injection: generated fault plans, exclusion sets, concurrency and completion orders; oracle = graph reachability in the harness registry + read log of the store",
-        "text": "Generated DAGs with absent / failing / undecodable / wrong-shape / stalling / slow blocks, exclusions, duplicated and unknown start hashes: the fetch must return (exact quiescence-based hang detection with goroutine dump), return no entry twice, never read an excluded hash or a hash twice, and return exactly the entries reachable through healthy non-excluded entries (⊆ under stalls). Exploration.",
+        "text": "Generated DAGs with absent / failing / undecodable / wrong-shape / stalling / slow blocks and blocks for which the store reports its own deadline or cancellation, exclusions, duplicated and unknown start hashes: the fetch must return (exact quiescence-based hang detection with goroutine dump), return no entry twice, never read an excluded hash or a hash twice, and return exactly the entries reachable through healthy non-excluded entries (⊆ under stalls). Exploration.",
         "note": "Liveness is observed, not proved; wall-clock time bounds are not asserted.",
     },
     "C12": {
@@ -121,13 +121,13 @@ META = {
     },
     "C16": {
         "technique": "property-based testing (rapid): bounded merge vs suffix of the reference linearisation of the union; twin replica for n >= total",
-        "text": "Generated pairs of logs and bounds 0..total+3; result must be the last min(n,total) of the reference sort (exact when strict-total), heads the unreferenced among them, and n >= total identical to the unbounded merge of a twin; in a third of the cases the (windowed) log makes a second bounded merge, compared with a twin that made the same first merge and the unbounded second one. Exploration. Found and repaired the n > total panic.",
+        "text": "Generated pairs of logs and bounds 0..total+3; result must be the last min(n,total) of the reference sort (exact when strict-total), heads the unreferenced among them, and n >= total identical to the unbounded merge of a twin; in a third of the cases the (windowed) log makes a second bounded merge, compared with a twin that made the same first merge and the unbounded second one; in a third of the cases another replica (or one that stopped earlier) makes a bounded merge from the windowed log, compared with a twin's unbounded merge. Exploration. Found and repaired the n > total panic.",
         "note": "Same trusted base as C01.",
     },
     "C17": {
         "technique": "property-based generation of histories + exhaustive enumeration of block-write prefixes (crash points) per history, with injected write failures; loads from truncated store views",
         "level": "fault_enumeration",
-        "text": "For every generated history over one shared store, EVERY write prefix is checked for causal closure (entries name only earlier blocks, manifests only stored heads), every value ever returned (append hash, manifest CID) is loaded from the prefix that existed at return time and from later prefixes (all of them in the thorough tier) and must reproduce the state at that moment; injected write failures (of appends and of publications) must surface as errors and leave entries and heads unchanged - or return a value that is stored after all; half of the failed operations are repeated at once (publication again / same append by a twin replica); appends refused by an access controller although they reproduce a committed block must not disturb the store (the fake store models removals). Crash points are enumerated exhaustively per history; histories are generated.",
+        "text": "For every generated history over one shared store, EVERY write prefix is checked for causal closure (entries name only earlier blocks, manifests only stored heads), every value ever returned (append hash, manifest CID) is loaded from the prefix that existed at return time and from later prefixes (all of them in the thorough tier) and must reproduce the state at that moment; injected write failures (of appends and of publications; single, in runs or as an outage; plain, timeout, deadline errors or a panic of the storage layer) must surface as errors and leave entries and heads unchanged - or return a value that is stored after all; half of the failed operations are repeated at once (publication again / same append by a twin replica); appends refused by an access controller although they reproduce a committed block must not disturb the store (the fake store models removals). Crash points are enumerated exhaustively per history; histories are generated.",
         "note": "Block writes are atomic in the fake store; replicas share one store as in the statement.",
     },
     "C18": {
